@@ -28,7 +28,46 @@ def correspondences(tier, rng):
     def impl(x):
         d, c, e = x
         return [tuple(F(v) for v in p) for p in iup.iup_delta(list(d), list(c), list(e))]
-    return [Corr("iup_delta", cases, impl, enc=enc)]
+    out = [Corr("iup_delta", cases, impl, enc=enc)]
+    # ---- delta-set index maps (HVAR / VVAR advance maps): entry format choice, packing and unpacking of the indices
+    from fontTools.ttLib.tables import otTables as ot
+    from fontTools.ttLib.tables.otBase import OTTableWriter, OTTableReader
+    from fontTools.ttLib import TTFont
+    def gen_map():
+        k = rng.choice([0, 1, 1, 2, 5, 20])
+        innermax = rng.choice([0, 1, 2, 3, 7, 8, 15, 16, 255, 256, 4095, 4096, 32767, 32768, 65535])
+        outermax = rng.choice([0, 0, 1, 2, 15, 16, 255, 256, 4095, 65535])
+        m = [(rng.randint(0, outermax) << 16) | rng.randint(0, innermax) for _ in range(k)]
+        if m and rng.chance(50): m[rng.below(len(m))] = (outermax << 16) | innermax           # the extremes themselves
+        if rng.chance(3): m.append(0xFFFFFFFF)
+        if rng.chance(2): m.append(1 << 32)                                                      # does not fit a variation index
+        return m
+    mcases = [gen_map() for _ in range(N(tier, 1500, 20000))]
+    def impl_fmt(m): return res(lambda: ot.DeltaSetIndexMap.getEntryFormat(list(m)))
+    out.append(Corr("getEntryFormat", mcases, impl_fmt, compare=lambda x, i_, m_: (i_[0] == 0 and list(i_[1:]) == list(m_))))
+    def impl_dsim_compile(m):
+        def go():
+            t = ot.DeltaSetIndexMap(); t.mapping = list(m)
+            w = OTTableWriter(); t.compile(w, TTFont()); return list(w.getAllData())
+        return res(go)
+    def oracle_dsim(m):
+        """the PROPERTY on the implementation: the compiled map decompiles to the same indices"""
+        if any(v >= 1 << 32 for v in m): return None          # not a variation index: the masks drop the excess bits silently
+        r = impl_dsim_compile(m)
+        if isinstance(r, Err): return None
+        t = ot.DeltaSetIndexMap(); t.decompile(OTTableReader(bytes(r.v)), TTFont())
+        return None if list(t.mapping) == list(m) else "index map %r reads back as %r" % ([hex(v) for v in m], [hex(v) for v in t.mapping])
+    out.append(Corr("dsim_compile", mcases, impl_dsim_compile, oracle=oracle_dsim))
+    dcases = []
+    for m in mcases:
+        r = impl_dsim_compile(m)
+        if not isinstance(r, Err): dcases.append(list(r.v))
+    def impl_dsim_decompile(b):
+        def go():
+            t = ot.DeltaSetIndexMap(); t.decompile(OTTableReader(bytes(b)), TTFont()); return list(t.mapping)
+        return res(go)
+    out.append(Corr("dsim_decompile", dcases, impl_dsim_decompile))
+    return out
 
 # ------------------------------------------------------------------ sweeps
 def two_axis_font():
